@@ -311,6 +311,7 @@ var sampleTexts = []string{
 	"Lorem ipsum dolor sit amet, consectetur adipiscing elit",
 	"x",
 	"Zwölf Boxkämpfer jagen Viktor",
+	"abc שלום עולם def 123", // bidi: a right-to-left run inside left-to-right text
 }
 
 var vocabulary = []string{"a", "in", "of", "the", "and", "to", "it", "was", "fountain", "golden", "forest", "favorite", "princess", "extraordinarily", "that", "when", "high", "day", "took", "close",
@@ -362,6 +363,9 @@ func genTextStep(r *simrt.Rand, nfonts int, colW float64) Step {
 		st.Variant, st.Deco = 0, 0
 	default:
 		st.Op = "richtext"
+		if r.Bool(0.2) {
+			st.WMode, st.Orient = 1+r.Intn(2), r.Intn(3)
+		}
 		st.Width = []float64{40, 60, 100}[r.Intn(3)]
 		if r.Bool(0.4) {
 			st.Width = colW
@@ -394,7 +398,13 @@ func genDrawing(r *simrt.Rand, l latticeCfg, nfonts int) *Drawing {
 		if r.Bool(0.3) {
 			it.Rot = float64(r.Intn(8)) * 45
 		}
-		if nfonts > 0 && r.Bool(0.45) {
+		if r.Bool(0.12) {
+			it.Kind = "image"
+			it.ImgW, it.ImgH = 2+r.Intn(9), 2+r.Intn(9)
+			it.ImgSeed = r.Uint64()
+			it.ImgKind = r.Intn(4)
+			it.Res = []float64{1, 2, 0.5}[r.Intn(3)]
+		} else if nfonts > 0 && r.Bool(0.45) {
 			it.Kind = "text"
 			it.Font = r.Intn(nfonts)
 			it.Size = []float64{8, 12, 18}[r.Intn(3)]
